@@ -201,3 +201,16 @@ check("C18",
       "direction offsets); vertices within the stated margins of a query boundary excluded; convex hexahedron fixed",
       "symbolic execution of the real Python code with z3 (symx), ConvexHull contract stub, concrete replay with real qhull",
       "DESIGN.md 4/C18")
+check("C11",
+      "Bounded symbolic execution of the constructors of Loft/Extrude/Revolve, Cylinder, SemiCylinder, Frustum, ExtrudedRing, "
+      "Elbow, RevolvedRing, Hemisphere, ExtrudedStack over Grid, ExtrudedShape over OneCore/FourCore/Half/Wrapped disks "
+      "and Oval, L/T/N joints, and of chain/expand/contract/fill, with every argument of the form k*Q*x0 + t (symbolic "
+      "scale and translation, pinned rational rotation), through the real Mesh.assemble: z3 shows positive corner "
+      "Jacobians, no coinciding distinct vertices, expected vertex counts, face-connectedness, outer arcs on the intended "
+      "circle, exact interface sharing, for all k and t. Grading of each shape's own count-only chops runs with "
+      "solver-chosen set-iteration schedules at a concrete placement.",
+      "one canonical set of intrinsic parameters per shape class; rotation from {identity, pinned}; schedules of the grading "
+      "run are explored up to a path bound (40 quick / 3000 thorough) and reported as truncated beyond; spline-round "
+      "sketches only in the thorough tier",
+      "symbolic execution of the real Python code with z3 (symx), similarity-lifted geometry, schedules as solver variables",
+      "DESIGN.md 4/C11")
